@@ -36,6 +36,22 @@ theorem wait_returns_code (w : W) (h : Inv w) (hr : w.k.proc = .running) (hnt : 
   have := congrArg (fun t => t.2.1) s2
   simpa using this
 
+/-- a read that meets the end of the stream observes the death: on an open object whose child has ended (a zombie, not yet reaped) the
+    read reaps it and records its fate - the status fields are set right after that read, without any further call -/
+theorem read_at_end_records_fate (w : W) (h : Inv w) (f : Fate) (hz : w.k.proc = .zombie f) (hnc : w.sp.closed = false)
+    (hnt : w.pp.terminated = false) :
+    (stepOp w .read).sp.terminated = true ∧ (stepOp w .read).k.proc = .reaped f ∧
+    ((stepOp w .read).sp.status, (stepOp w .read).sp.exitstatus, (stepOp w .read).sp.signalstatus) = fateFields f := by
+  have hi : Inv (stepOp w .read) := stepOp_inv w .read trivial h
+  have ht : (stepOp w .read).sp.terminated = true := by
+    simp [stepOp, hnc, spIsalive, ppIsalive, hnt, hz, copyStatus]
+  have hp : (stepOp w .read).k.proc = .reaped f := by
+    simp [stepOp, hnc, spIsalive, ppIsalive, hnt, hz, copyStatus]
+  obtain ⟨f', h1, h2, -⟩ := Lf.status_truth _ hi ht
+  rw [hp] at h1
+  cases h1
+  exact ⟨ht, hp, h2⟩
+
 /-- `PopenSpawn.wait()`: subprocess reports a signal death as a negative return code -/
 def popenWait (rc : Int) : Option Nat × Option Nat := if rc ≥ 0 then (some rc.toNat, none) else (none, some (-rc).toNat)
 
